@@ -301,6 +301,27 @@ Section Frames.
     split; [exact E|]. rewrite E. reflexivity.
   Qed.
 
+  (* unseeded Monte-Carlo operations: reproducible through np.random.seed -- if the global generator holds the same value
+     before both occurrences and nothing else the operation reads was written in between, it computes the same object *)
+  Theorem repeatable_if_reseeded : forall ops (h : heap V) i j a, same_result_if_reseeded shape ops i j = true ->
+    nth_error ops i = Some a -> heap_before ops h j Rng = heap_before ops h i Rng ->
+    result a (map (heap_before ops h j) (rset a)) = result a (map (heap_before ops h i) (rset a)).
+  Proof.
+    intros ops h i j a G Ha Hr. unfold same_result_if_reseeded in G. rewrite Ha in G.
+    apply andb_true_iff in G. destruct G as [G G3]. apply andb_true_iff in G. destruct G as [_ G2].
+    apply Nat.ltb_lt in G2. apply negb_true_iff in G3.
+    f_equal. apply map_ext_in. intros c Hc. destruct (is_rng c) eqn:Er; [destruct c; try discriminate; exact Hr|].
+    unfold heap_before. replace j with (i + (j - i)) at 1 by lia. rewrite firstn_split, run_app.
+    assert (Li : length (firstn i ops) = i).
+    { apply firstn_length_le. apply Nat.lt_le_incl. apply nth_error_Some. congruence. }
+    rewrite Li. cbn [Nat.add]. apply run_unchanged. intros m o Hm.
+    apply (written_false _ _ _ G3 c); [|exact Hm]. apply filter_In. split; [exact Hc|]. rewrite Er. reflexivity.
+  Qed.
+
+  (* ... and they DO advance the global generator: it is in their write set (the only operations that write it) *)
+  Lemma unseeded_writes_rng t k e args : may_use_rng e = true -> In Rng (wset t (Eval k e args)).
+  Proof. intros H. cbn [Heap.wset]. right. apply in_or_app. left. rewrite H. left. reflexivity. Qed.
+
   (* and the object it returns is the same object (as a value) *)
   Definition returns (o : op) : bool :=
     match o with Eval _ _ _ => true | OnContour _ SaveContour _ => false | OnContour _ _ _ => true | Fit _ _ _ => false end.
